@@ -1,10 +1,12 @@
 package mon
 
 import (
+	"bytes"
 	"fmt"
 	"go/ast"
 	"go/parser"
 	"go/token"
+	"log"
 	"math"
 	"os"
 	"path/filepath"
@@ -310,6 +312,21 @@ func c17Run(c *core.Ctx, idx int) {
 	switch {
 	case idx < enum:
 		k := c17Calls[idx]
+		if idx%3 == 1 {
+			// with user-installed package defaults (logger, log level) in force, dead receivers are still inert
+			custom := log.New(&bytes.Buffer{}, "", 0)
+			stackage.SetDefaultStackLogger(custom)
+			stackage.SetDefaultConditionLogger(custom)
+			stackage.SetDefaultStackLogLevel(stackage.AllLogLevels)
+			stackage.SetDefaultConditionLogLevel(stackage.AllLogLevels)
+			defer func() {
+				stackage.SetDefaultStackLogger("none")
+				stackage.SetDefaultConditionLogger("none")
+				stackage.SetDefaultStackLogLevel(0)
+				stackage.SetDefaultConditionLogLevel(0)
+			}()
+			c.Count("calls.with-package-defaults")
+		}
 		recv, isStack, isCond := c17Receiver(k.state)
 		// re-synthesise the arguments so closures/log are fresh
 		res, p, msg, site := Invoke(recv, k.spec)
@@ -401,9 +418,42 @@ func c17Lifecycle(c *core.Ctx, r *core.Rng) {
 				s.Push(i)
 			}
 		}
+		// a history that rebuilt the backing array before the Reset
+		hist := ""
+		if s.Len() > 0 && r.Chance(1, 2) {
+			switch r.Intn(3) {
+			case 0:
+				for i := 0; i < s.Len(); i++ {
+					if _, ok := s.Remove(i); ok {
+						break
+					}
+				}
+				hist = "Remove"
+			case 1:
+				s.Pop()
+				s.Insert("front", 0)
+				hist = "Pop+Insert(front)"
+			default:
+				s.Pop()
+				s.Push(nil)
+				hist = "Pop+Push(nil)"
+			}
+		}
 		before, _ := stackage.VerifDump(s)
-		desc := map[string]any{"kind": kind, "cap": capacity, "len": s.Len(), "nils": nils, "opt": before.Opt}
-		s.Reset()
+		nils = 0
+		for _, v := range before.Slots {
+			if v == nil {
+				nils++
+			}
+		}
+		desc := map[string]any{"kind": kind, "cap": capacity, "len": s.Len(), "nils": nils, "opt": before.Opt, "history": hist}
+		if p, msg, site := Guard(func() { s.Reset() }); p {
+			c.Violatef("panic:"+site+":Reset", desc, "Reset panicked after %s: %s", hist, msg)
+			return
+		}
+		if false {
+			s.Reset()
+		}
 		after, _ := stackage.VerifDump(s)
 		if s.Len() != 0 || !s.IsEmpty() || len(after.Slots) != 0 {
 			c.Violatef("Reset:not-empty", desc, "Reset left %d elements (Len %d) on a stack that held %d nil elements", len(after.Slots), s.Len(), nils)
@@ -432,6 +482,10 @@ func c17Lifecycle(c *core.Ctx, r *core.Rng) {
 			s.SetValidityPolicy(func(...any) error { return fmt.Errorf("never valid") }) // initialised but "invalid"
 		case 2:
 			s.SetErr(fmt.Errorf("pending error"))
+		case 3:
+			// a read-only member somewhere inside does not make the (writable) receiver unfreeable
+			inner := stackage.List().Push("in").SetReadOnly(true)
+			s.Push(stackage.Or().Push(stackage.Cond("kw", stackage.Eq, inner)), inner)
 		}
 		ro := r.Bool()
 		if ro {
